@@ -68,6 +68,15 @@ pub open spec fn searched<T, E: FnMut(&T) -> bool>(e: E, tv: TV<T>, hash: u64) -
     exists|e1: E| #[trigger] rejects_all(e1, tv, hash)
 }
 
+/// A closure lent to hashbrown's `find` as `&mut eq` comes back as it was: `find` only calls it (it has no other value
+/// of the closure's type to put in its place), and a closure within the verifier's subset has no mutable state.
+/// Invoked at exactly one place: after the main-table lookup of `RawTable::find`, for the closure value before / after.
+#[verifier::external_body]
+pub proof fn axiom_lent_closure_unchanged<A, F: FnMut(&A) -> bool>(before: F, after: F)
+    ensures forall|a: &A, o: bool| before.ensures((a,), o) == after.ensures((a,), o),
+            forall|a: &A| before.requires((a,)) == after.requires((a,)),
+{ }
+
 #[verifier::external_body] #[verifier::accept_recursive_types(T)] pub struct HbTable<T> { _p: core::marker::PhantomData<T> }
 #[verifier::external_body] #[verifier::accept_recursive_types(T)] pub struct HbBucket<T> { _p: core::marker::PhantomData<T> }
 #[verifier::external_body] #[verifier::accept_recursive_types(T)] pub struct HbIter<T> { _p: core::marker::PhantomData<T> }
@@ -82,6 +91,30 @@ impl<T> HbBucket<T> {
     pub unsafe fn as_mut<'a>(&self) -> &'a mut T { unimplemented!() }
     #[verifier::external_body]
     pub unsafe fn as_ref<'a>(&self) -> &'a T { unimplemented!() }
+}
+/// hashbrown `Bucket::as_ref` / `Bucket::as_mut` with the table the bucket points into made explicit (extraction rule
+/// R21): a bucket is a pointer to slot `idx` of the table `b@.table`, so the dereference reads / writes exactly that
+/// slot. That the slot is occupied and belongs to `t` is a precondition (hashbrown: "the bucket must be full / the
+/// table must outlive the reference"); the write through the returned `&mut` changes that slot and nothing else
+/// (control bytes, stored hash, growth_left are untouched).
+#[verifier::external_body]
+pub fn hb_ref<'a, T>(b: &HbBucket<T>, t: &'a HbTable<T>) -> (r: &'a T)
+    requires
+        t@.items.contains_key(b@.idx), //@ dep.deref.full C05,C12
+        b@.table == t@.id, //@ dep.deref.table C05,C12
+    ensures *r == t@.items[b@.idx],
+{ unimplemented!() }
+#[verifier::external_body]
+pub fn hb_mut<'a, T>(b: &HbBucket<T>, t: &'a mut HbTable<T>) -> (r: &'a mut T)
+    requires
+        old(t)@.items.contains_key(b@.idx), //@ dep.deref_mut.full C05,C12
+        b@.table == old(t)@.id, //@ dep.deref_mut.table C05,C12
+    ensures *r == old(t)@.items[b@.idx],
+        final(t)@ == tv_written(old(t)@, b@.idx, *final(r)),
+{ unimplemented!() }
+/// the table after slot `i` has been overwritten with `x` through a reference
+pub open spec fn tv_written<T>(v: TV<T>, i: int, x: T) -> TV<T> {
+    TV { items: v.items.insert(i, x), elems: v.elems.remove(v.items[i]).insert(x), ..v }
 }
 impl<T> Clone for HbBucket<T> {
     #[verifier::external_body]
